@@ -1,6 +1,7 @@
 (* Shared small definitions: byte strings as [list N], names from Coq strings,
    association-list lookup with HashMap-insert semantics, result type. *)
-From Coq Require Export List NArith ZArith Bool Lia String Ascii.
+From Coq Require Export List NArith ZArith Bool Lia.
+From Coq Require Import String Ascii.
 Export ListNotations.
 Open Scope N_scope.
 
